@@ -1,6 +1,7 @@
 package main
 
 import (
+	"sync/atomic"
 	"context"
 	"encoding/binary"
 	"errors"
@@ -21,7 +22,7 @@ func init() {
 		"Shutdown started with every request parked, the parked requests released while Shutdown waits or after it returned, with and without expiry of Shutdown's "+
 		"own deadline; then: a second Shutdown, a Close, a new dial, a request on an old connection; observed per request: response received / handler ran, "+
 		"return values of Shutdown and of the serve loop, handler starts after completion, panics; every schedule is replayed on the Lean shutdown model; "+
-		"plus concurrent Shutdown x3 + Close storms; non-trivial = at least one request parked when Shutdown begins; distinct = distinct schedule line",
+		"plus concurrent Shutdown x3 + Close storms and Close arriving while Shutdown waits (slow connection-close plugin); non-trivial = at least one request parked when Shutdown begins; distinct = distinct schedule line",
 		runC16)
 	hookHandlers["server.process.enter"] = sdHook
 }
@@ -72,13 +73,23 @@ func (c sdConn) Write(p []byte) (int, error) {
 	return c.Conn.Write(p)
 }
 
-type sdPlugin struct{}
+type sdPlugin struct{ slowClose *int64 }
 
 func (sdPlugin) HandleConnAccept(conn net.Conn) (net.Conn, bool) { return sdConn{conn}, true }
 
+// HandleConnClose: a connection-close plugin that can be slow (the server calls it while it
+// holds its own mutex, in Close and in Shutdown)
+func (p sdPlugin) HandleConnClose(net.Conn) bool {
+	if d := atomic.LoadInt64(p.slowClose); d > 0 {
+		time.Sleep(time.Duration(d))
+	}
+	return true
+}
+
 type sdRig struct {
 	*srvRig
-	serveRet chan error
+	serveRet  chan error
+	slowClose int64 // nanoseconds the connection-close plugin takes
 }
 
 func newSdRig(pool bool) (*sdRig, error) {
@@ -91,14 +102,14 @@ func newSdRig(pool bool) (*sdRig, error) {
 	if err := s.RegisterName("Svc", &rigSvc{r}, ""); err != nil {
 		return nil, err
 	}
-	s.Plugins.Add(sdPlugin{})
+	sr := &sdRig{srvRig: r, serveRet: make(chan error, 1)}
+	s.Plugins.Add(sdPlugin{&sr.slowClose})
 	ln, err := net.Listen("tcp", "127.0.0.1:0")
 	if err != nil {
 		return nil, err
 	}
 	r.ln = ln
 	r.addr = ln.Addr().String()
-	sr := &sdRig{srvRig: r, serveRet: make(chan error, 1)}
 	go func() { sr.serveRet <- s.ServeListener("tcp", ln) }()
 	select {
 	case <-s.Started:
@@ -524,6 +535,90 @@ func runC16(o *Out, r *rand.Rand) {
 	for i := 0; i < storms; i++ {
 		c16Storm(o, r.Intn(2) == 0)
 	}
+	// Close arriving while Shutdown waits for a running request, with a slow connection-close
+	// plugin: the two calls overlap for a long time inside their critical sections
+	overl := 2
+	if thorough() {
+		overl = 12
+	}
+	var wg2 sync.WaitGroup
+	for i := 0; i < overl; i++ {
+		wg2.Add(1)
+		go func(pool bool) {
+			defer wg2.Done()
+			c16CloseDuringShutdown(o, pool)
+		}(i%2 == 0)
+	}
+	wg2.Wait()
+}
+
+func c16CloseDuringShutdown(o *Out, pool bool) {
+	rig, err := newSdRig(pool)
+	if err != nil {
+		o.Violate("srv.rig", "cannot start: "+err.Error(), nil)
+		return
+	}
+	rp := map[string]any{"scenario": "Shutdown waits for a running request; Close is called meanwhile; the connection-close plugin takes 1.4 s; the request finishes 0.3 s after Shutdown began", "pool": pool}
+	id := nextSdID()
+	gate, started := rig.gate(id)
+	p, err := dialRaw(rig.addr)
+	if err != nil {
+		o.Violate("srv.rig", "cannot connect: "+err.Error(), nil)
+		return
+	}
+	defer p.c.Close()
+	p.send(rawReq{id: id, seq: uint64(id), path: "Svc", method: "Do", ser: protocol.JSON, args: &SArgs{ID: id, Mode: "ok"}})
+	select {
+	case <-started:
+	case <-time.After(2 * time.Second):
+		o.Violate("srv.rig", "handler did not start", nil)
+		return
+	}
+	atomic.StoreInt64(&rig.slowClose, int64(1400*time.Millisecond))
+	var viol []Violation
+	var mu sync.Mutex
+	sdDone, clDone := make(chan struct{}), make(chan struct{})
+	go func() {
+		var v []Violation
+		ctx, cancel := context.WithTimeout(context.Background(), 8*time.Second)
+		defer cancel()
+		safely("Shutdown (with Close)", &v, rp, func() { rig.s.Shutdown(ctx) })
+		mu.Lock()
+		viol = append(viol, v...)
+		mu.Unlock()
+		close(sdDone)
+	}()
+	time.Sleep(100 * time.Millisecond)
+	go func() {
+		var v []Violation
+		safely("Close (during Shutdown)", &v, rp, func() { rig.s.Close() })
+		mu.Lock()
+		viol = append(viol, v...)
+		mu.Unlock()
+		close(clDone)
+	}()
+	time.Sleep(200 * time.Millisecond)
+	close(gate)
+	for name, ch := range map[string]chan struct{}{"Shutdown": sdDone, "Close": clDone} {
+		select {
+		case <-ch:
+		case <-time.After(9 * time.Second):
+			o.Violate("c16.shutdown-with-close-hangs", name+" did not return when Shutdown and Close overlapped", rp)
+		}
+	}
+	select {
+	case <-rig.serveRet:
+	case <-time.After(3 * time.Second):
+		o.Violate("c16.serve-did-not-return", "the serve loop did not return after overlapping Shutdown and Close", rp)
+	}
+	atomic.StoreInt64(&rig.slowClose, 0)
+	mu.Lock()
+	for _, v := range viol {
+		o.Violate(v.Kind, v.Detail, v.Replay)
+	}
+	mu.Unlock()
+	o.Eval(fmt.Sprintf("close-during-shutdown pool=%v", pool), true)
+	o.Count("close-during-shutdown")
 }
 
 func c16Storm(o *Out, pool bool) {
